@@ -36,7 +36,10 @@ def file_guard(rep: Report, mods):
         rep.violation(f"FileWrite.tla: {res.violated} fails", {"trace": res.error_trace})
         return 0
     main = mods["main"]
-    texts = {(True, 1): "x = 1\n", (True, 2): "y = 2\n", (False, 1): "x = (1\n", (False, 2): "y = )2\n"}
+    # contents differ in length and in the number of UTF-8 bytes per character (a write that counts one for the other shows)
+    texts = {(True, 1): "x = 1\n", (True, 2): "y = 2\n", (False, 1): "x = (1\n", (False, 2): "y = )2\n",
+             (True, 3): "s = '\u00e9\u20ac\U0001F600 and a longer line of text'\nprint(s)\n", (False, 3): "s = ('\u00e9\u20ac\n",
+             (True, 4): "z=3\n", (False, 4): "(\n"}
     tmp = tempfile.mkdtemp(prefix="verif-c03-")
     n = 0
     orig = main.format_code
@@ -47,20 +50,20 @@ def file_guard(rep: Report, mods):
         for r in res.records:
             pass
         for dv in (True, False):
-            for di in (1, 2):
+            for di in (1, 2, 3, 4):
                 for fv in (True, False):
-                    for fi in (1, 2):
+                    for fi in (1, 2, 3, 4):
                         initial, formatted = texts[(dv, di)], texts[(fv, fi)]
                         should_write = formatted != initial and (fv or not dv)
                         path = Path(tmp) / f"f_{dv}_{di}_{fv}_{fi}.py"
-                        path.write_text(initial)
+                        path.write_bytes(initial.encode("utf-8"))
                         os.utime(path, ns=(10 ** 18, 10 ** 18))
                         main.format_code = lambda *a, _f=formatted, **k: _f
                         try:
                             ret = main.format_file(path)
                         finally:
                             main.format_code = orig
-                        after = path.read_text()
+                        after = path.read_bytes().decode("utf-8", errors="replace")
                         touched = os.stat(path).st_mtime_ns != 10 ** 18
                         n += 1
                         case = {"initial": initial, "formatter_returns": formatted, "file_after": after,
